@@ -15,3 +15,7 @@ def signature(d, hist):
 
 def run(chk):
     relrun.standard(chk, relevant, signature)
+
+
+def replay(chk, path):
+    return relrun.replay_file(chk, path, relevant, signature)
